@@ -55,7 +55,11 @@ XeVerdict(e) ==
   ELSE IF e.code # 0 THEN
        IF u = "either" /\ CleanError(e) THEN OKV
        ELSE [verdict |-> "VIOLATION", why |-> "xe failed on a usable run", code |-> e.code]
-  ELSE IF e.indent THEN (IF e.out.ok THEN OKV ELSE [verdict |-> "VIOLATION", why |-> "xe's indented output does not parse"])
+  \* indented output: well-formed, and the same document up to white space in character data
+  ELSE IF e.indent THEN (IF ~e.out.ok THEN [verdict |-> "VIOLATION", why |-> "xe's indented output does not parse"]
+                         ELSE IF e.exp.ok /\ e.out.ws # e.exp.ws
+                         THEN [verdict |-> "VIOLATION", why |-> "xe's indented output differs from the expected document by more than white space", expected |-> exp]
+                         ELSE OKV)
   ELSE IF ~e.exp.ok THEN [verdict |-> "VIOLATION", why |-> "the expected document does not parse (parser defect or specification error)"]
   ELSE IF ~e.out.ok THEN [verdict |-> "VIOLATION", why |-> "xe's compact output does not parse"]
   ELSE IF good THEN OKV
